@@ -234,6 +234,113 @@ Definition judge_edit (c o : sexp) : verdict := judge_edit_gen "edit" c o.
     against the dumped structure (orientation is not data in the model) *)
 Definition judge_handbuilt (c o : sexp) : verdict := judge_edit_gen "handbuilt" c o.
 
+(** * indexseq: the indexing step is any sequence the public API allows
+      pre : none | reinit | reroot | hashes | reinit_reroot      (state before)
+      seq : reinit | three | three_hashes | tipindex | nothing
+    What the unmodified code leaves (clearBitSetsRecur zeroes the two hash codes, not the counts;
+    UpdateBitSet fills the bitsets; ComputeEdgeHashes, also reached through Reroot, computes counts
+    and hashes from the structure without needing the tip index; only UpdateTipIndex assigns ids):
+      bitsets   present iff UpdateBitSet ran with a tip index: seq in {reinit, three, three_hashes} or pre in {reinit, reinit_reroot}
+      counts    computed iff ComputeEdgeHashes ever ran: seq in {reinit, three_hashes} or pre <> none
+      hashes    computed iff it ran last: seq in {reinit, three_hashes}, or seq in {tipindex, nothing} and pre <> none; else 0
+      tip ids   ranks iff UpdateTipIndex ran, else all 0
+    obs ((operr m) (tree T') (audit ..) (tips ..) (edges ((bits|nil nr nl depth hc hl hr tip) ...))
+         (copyerr_full m) (same_full bits) (heq_full bits) (copyerr_three m) (same_three bits) (heq_three bits)) *)
+Record grow2 : Type := mkG2 { g2_bits : option (list bool); g2_nr : Z; g2_nl : Z; g2_depth : Z;
+                              g2_hc : N; g2_hl : N; g2_hr : N; g2_tip : bool }.
+Definition dec_grow2 (s : sexp) : option grow2 :=
+  match s with
+  | SList [b; nr; nl; d; hc; hl; hr; tp] =>
+    b' <- (a <- atom_of b ;; if String.eqb a "nil" then Some None else match bits_of_string a with Some l => Some (Some l) | None => None end) ;;
+    nr' <- dec_Z nr ;; nl' <- dec_Z nl ;; d' <- dec_Z d ;;
+    hc' <- dec_N hc ;; hl' <- dec_N hl ;; hr' <- dec_N hr ;; tp' <- dec_bool tp ;;
+    Some (mkG2 b' nr' nl' d' hc' hl' hr' tp')
+  | _ => None
+  end.
+
+Definition str_in (x : string) (l : list string) : bool := existsb (String.eqb x) l.
+
+Definition judge_indexseq (c o : sexp) : verdict :=
+  match get_string "panic" o with
+  | Some p => VCorr ("implementation panics: " ++ p)
+  | None =>
+    match get_string "pre" c, get_string "seq" c, get_string "operr" o, get_tree "tree" o with
+    | Some pre, Some sq, Some operr, Some g =>
+      if negb (String.eqb operr "") then VOk false "indexseq:operr" else
+      if negb (wf g && Nat.leb 2 (degree g) && distinct_sorted (ssort (leaves g))) then VOk false "indexseq:degenerate" else
+      let has_bits := str_in sq ["reinit"; "three"; "three_hashes"] || str_in pre ["reinit"; "reinit_reroot"] in
+      let has_counts := str_in sq ["reinit"; "three_hashes"] || negb (String.eqb pre "none") in
+      let has_hashes := str_in sq ["reinit"; "three_hashes"] || (str_in sq ["tipindex"; "nothing"] && negb (String.eqb pre "none")) in
+      let has_ids := negb (String.eqb sq "nothing") || str_in pre ["reinit"; "reinit_reroot"] in
+      match (x <- get "tips" o ;; dec_list (dec_pair dec_string dec_nat) x), (x <- get "edges" o ;; dec_list dec_grow2 x) with
+      | Some gt, Some ge =>
+        let all := ssort (leaves g) in
+        let ntot := length all in
+        let rws := rows g in
+        let orow (ec : einfo * utree) (r : grow2) : option string :=
+            let below := leaves (snd ec) in
+            let nr := Z.of_nat (length below) in
+            let nl := Z.of_nat (ntot - length below) in
+            first_some [
+              (if has_bits then match g2_bits r with
+                                | Some b => if bits_eqb (map (fun x => smem x below) all) b then None
+                                            else Some "after UpdateBitSet the bitset is not the characteristic vector of the tips below the branch"
+                                | None => Some "after UpdateBitSet a branch has no bitset"
+                                end else None);
+              (if has_counts then
+                 if negb (Z.eqb (g2_nr r) nr) then Some "hashes were (re)computed but NumTipsRight is not the number of tips below the branch"
+                 else if negb (Z.eqb (g2_nl r) nl) then Some "hashes were (re)computed but NumTipsLeft is not the number of tips above the branch"
+                 else if negb (Z.eqb (g2_depth r) (Z.min nl nr)) then Some "hashes were (re)computed but TopoDepth is not the size of the light side"
+                 else None
+               else None) ] in
+        let k := combine (split_sides g) rws in
+        let matrix (how : string) : option string :=
+            match get_string ("copyerr_" ++ how) o, get_bits ("same_" ++ how) o, get_bits ("heq_" ++ how) o with
+            | Some ce, Some sc, Some hc =>
+              if negb (String.eqb ce "") then Some ("independent copy (" ++ how ++ "): " ++ ce)
+              else if negb (Nat.eqb (length sc) (length k * length k) && Nat.eqb (length hc) (length k * length k)) then Some "copy matrix: number of branches"
+              else check_matrix2 (fun a b x => pair_oracle ("tree/copy indexed by " ++ how) a b (fst x) (snd x)) k k (zip_bits sc hc)
+            | Some ce, _, _ => Some ("independent copy (" ++ how ++ "): " ++ ce)
+            | _, _, _ => Some ("no comparison with the copy indexed by " ++ how)
+            end in
+        let orc := first_some [
+          (if Nat.eqb (length ge) (length (edges g)) then None else Some "number of branches");
+          first_diff orow 0 (edges g) ge;
+          (if has_ids then first_some (map (oracle_tip all) gt) else None);
+          (* comparisons: a tree whose hashes are computed against a fully indexed copy; a tree indexed
+             by the three calls (hash codes 0) against a copy indexed the same way *)
+          (if has_bits then if has_hashes then matrix "full" else matrix "three" else None) ] in
+        match orc with
+        | Some m => VOracle m
+        | None =>
+          let crow (m : erow) (r : grow2) : option string :=
+              let hl := if has_hashes then r_hleft m else 0%N in
+              let hr := if has_hashes then r_hright m else 0%N in
+              let nl := if has_counts then r_nleft m else 0 in
+              let nr := if has_counts then r_nright m else 0 in
+              if negb (match g2_bits r with Some b => has_bits && bits_eqb (r_bits m) b | None => negb has_bits end) then Some "bitset presence / content"
+              else if negb (Z.eqb (g2_nr r) (Z.of_nat nr)) then Some "ntaxright"
+              else if negb (Z.eqb (g2_nl r) (Z.of_nat nl)) then Some "ntaxleft"
+              else if negb (N.eqb (g2_hr r) hr) then Some "hashcoderight"
+              else if negb (N.eqb (g2_hl r) hl) then Some "hashcodeleft"
+              else if negb (N.eqb (g2_hc r) (hash_code_of nl nr hl hr)) then Some "HashCode"
+              else if negb (Z.eqb (g2_depth r) (if Nat.eqb nl 0 || Nat.eqb nr 0 then (-1)%Z else Z.of_nat (Nat.min nl nr))) then Some "TopoDepth"
+              else None in
+          match first_some [
+                  first_diff crow 0 rws ge;
+                  first_diff (fun name (p : string * nat) =>
+                                if Nat.eqb (snd p) (if has_ids then index_of name all else 0) then None else Some "tip id")
+                             0 (tip_names g) gt ] with
+          | Some m => VCorr m
+          | None => VOk (has_bits || has_counts) "indexseq"
+          end
+        end
+      | _, _ => VBad "undecodable indexseq tables"
+      end
+    | _, _, _, _ => VBad "undecodable indexseq case"
+    end
+  end.
+
 Definition find_code (r : res bool) : string :=
   match r with Ok true => "T" | Ok false => "F" | Err _ => "E" end.
 
@@ -693,6 +800,7 @@ Definition judge (c o : sexp) : verdict :=
     if String.eqb k "index" then judge_index c o
     else if String.eqb k "edit" then judge_edit c o
     else if String.eqb k "handbuilt" then judge_handbuilt c o
+    else if String.eqb k "indexseq" then judge_indexseq c o
     else if String.eqb k "parmap" then judge_parmap c o
     else if String.eqb k "samebip" then judge_samebip c o
     else if String.eqb k "edgeindex" then judge_edgeindex c o
